@@ -1,3 +1,4 @@
+#include <set>
 // C01 - the interpolant reproduces the loaded model values at every loaded point
 #include "monitors.hpp"
 
@@ -23,10 +24,64 @@ std::vector<double> interior_nudged(TasmanianSparseGrid const &g, std::vector<do
     return xe;
 }
 
+// A wavelet grid that fails to reproduce its data is examined with dense linear algebra on the collocation matrix M(i,j) = phi_j(x_i) obtained
+// from the library (evaluateHierarchicalFunctions at the loaded points), so that the report identifies *which* failure it is:
+//   singular-basis-on-loaded-points : M is singular to working precision - no interpolant exists on the accepted point set
+//   iterative-solver-not-converged  : M is well conditioned and a dense solve reproduces the data, the library's coefficients have a large residual
+//   "" (anything else, e.g. coefficients all zero or not finite, or coefficients that solve the system but evaluation differs)
+static std::string wavelet_failure_class(TasmanianSparseGrid const &g){
+    int n = g.getNumLoaded(), m = g.getNumOutputs();
+    if (!g.isWavelet() || n == 0 || n > 1500 || g.isSetConformalTransformASIN()) return "";
+    std::vector<double> x = g.getLoadedPoints(), M;
+    g.evaluateHierarchicalFunctions(x, M);
+    if (M.size() != (size_t) n * (size_t) n) return "";
+    const double *v = g.getLoadedValues();
+    const double *cf = g.getHierarchicalCoefficients();
+    bool all_zero = true, finite = true; double vmax = 0.0;
+    for(size_t i=0; i<(size_t) n * (size_t) m; i++){ if (cf[i] != 0.0) all_zero = false; if (!std::isfinite(cf[i])) finite = false; vmax = std::max(vmax, std::fabs(v[i])); }
+    if (all_zero || !finite) return "";
+    // residual of the library's coefficients
+    double res_lib = 0.0;
+    for(int i=0; i<n; i++) for(int k=0; k<m; k++){
+        double sum = 0.0; for(int j=0; j<n; j++) sum += M[(size_t) i * (size_t) n + (size_t) j] * cf[(size_t) j * (size_t) m + (size_t) k];
+        res_lib = std::max(res_lib, std::fabs(sum - v[(size_t) i * (size_t) m + (size_t) k]));
+    }
+    if (getenv("VF_TRACE")){ double cm=0; for(size_t i=0;i<(size_t)n*(size_t)m;i++) cm=std::max(cm,std::fabs(cf[i])); double s0=0; for(int j=0;j<n;j++) s0+=M[(size_t)j]*cf[(size_t)j*(size_t)m]; fprintf(stderr,"  max|cf|=%g (M cf)_0=%.17g v_0=%.17g\n",cm,s0,v[0]); }
+    // LU with partial pivoting
+    std::vector<double> A = M; std::vector<int> piv((size_t) n);
+    double pmin = 1e300, pmax = 0.0;
+    for(int k=0; k<n; k++){
+        int p = k; for(int i=k+1; i<n; i++) if (std::fabs(A[(size_t) i * n + k]) > std::fabs(A[(size_t) p * n + k])) p = i;
+        piv[(size_t) k] = p;
+        if (p != k) for(int j=0; j<n; j++) std::swap(A[(size_t) k * n + j], A[(size_t) p * n + j]);
+        double d = std::fabs(A[(size_t) k * n + k]);
+        pmin = std::min(pmin, d); pmax = std::max(pmax, d);
+        if (d == 0.0) continue;
+        for(int i=k+1; i<n; i++){
+            double l = A[(size_t) i * n + k] / A[(size_t) k * n + k]; A[(size_t) i * n + k] = l;
+            if (l != 0.0) for(int j=k+1; j<n; j++) A[(size_t) i * n + j] -= l * A[(size_t) k * n + j];
+        }
+    }
+    if (getenv("VF_TRACE")) fprintf(stderr, "  wavelet class: n=%d pmin=%g pmax=%g res_lib=%g vmax=%g\n", n, pmin, pmax, res_lib, vmax);
+    if (pmin <= 1e-10 * pmax) return "singular-basis-on-loaded-points";
+    // dense solve for output 0 and its residual
+    std::vector<double> b((size_t) n);
+    for(int i=0; i<n; i++) b[(size_t) i] = v[(size_t) i * (size_t) m];
+    for(int k=0; k<n; k++) std::swap(b[(size_t) k], b[(size_t) piv[(size_t) k]]); // whole rows were swapped: permute first, then substitute
+    for(int k=0; k<n; k++) for(int i=k+1; i<n; i++) b[(size_t) i] -= A[(size_t) i * n + k] * b[(size_t) k];
+    for(int k=n-1; k>=0; k--){ for(int j=k+1; j<n; j++) b[(size_t) k] -= A[(size_t) k * n + j] * b[(size_t) j]; b[(size_t) k] /= A[(size_t) k * n + k]; }
+    double res_dense = 0.0;
+    for(int i=0; i<n; i++){ double sum = 0.0; for(int j=0; j<n; j++) sum += M[(size_t) i * (size_t) n + (size_t) j] * b[(size_t) j]; res_dense = std::max(res_dense, std::fabs(sum - v[(size_t) i * (size_t) m])); }
+    if (getenv("VF_TRACE")) fprintf(stderr, "  wavelet class: res_dense=%g\n", res_dense);
+    if (res_dense <= 1e-9 * (vmax + 1e-300) && res_lib > 1e-7 * (vmax + 1e-300)) return "iterative-solver-not-converged";
+    return "";
+}
+
 double check_reproduction(TasmanianSparseGrid const &g, CaseCtx &c, Rng &rng, std::string const &prefix, std::string const &after){
     int d = g.getNumDimensions(), m = g.getNumOutputs(), n = g.getNumLoaded();
     if (n == 0 || m == 0) return 0.0;
     std::string fam = g.isGlobal() ? "global" : g.isSequence() ? "sequence" : g.isLocalPolynomial() ? "localp" : g.isWavelet() ? "wavelet" : "fourier";
+    auto famx = [&]()->std::string{ std::string cls = wavelet_failure_class(g); return cls.empty() ? fam : fam + ":" + cls; };
     std::vector<double> x = g.getLoadedPoints();
     const double *v = g.getLoadedValues();
     double vmax = 0.0;
@@ -35,7 +90,7 @@ double check_reproduction(TasmanianSparseGrid const &g, CaseCtx &c, Rng &rng, st
     // conditioning estimate: Lebesgue-type sum of the library's own interpolation weights at a sample of nodes (estimate only)
     double lam = 1.0;
     {
-        int samples = std::min(n, 12);
+        int samples = std::min(n, g.isWavelet() ? 3 : 12); // every wavelet weight query is an iterative transposed solve (up to 2400 iterations when it converges badly)
         for(int s=0; s<samples; s++){
             int i = (s == 0) ? 0 : rng.range(0, n - 1);
             std::vector<double> w = g.getInterpolationWeights(&x[(size_t) i * (size_t) d]);
@@ -44,8 +99,16 @@ double check_reproduction(TasmanianSparseGrid const &g, CaseCtx &c, Rng &rng, st
         }
     }
     if (!std::isfinite(lam) || lam > 1e9){ c.count("skipped:ill-conditioned-basis"); return 0.0; } // e.g. Lagrange interpolation on > 500 nodes in one direction
+    if (g.isGlobal()){ // the Lagrange coefficients of >= 1023 nodes in one direction over/underflow: every value is NaN, wherever the weights were sampled
+        for(int j=0; j<d; j++){
+            std::set<double> coords;
+            for(int i=0; i<n; i++) coords.insert(x[(size_t) i * (size_t) d + (size_t) j]);
+            if (coords.size() >= 1000){ c.count("skipped:ill-conditioned-basis"); return 0.0; }
+        }
+    }
     double tol = tol_const(g) * eps * lam * (double)(d + 1) * (vmax + 1e-300) + 1e-290;
     if (g.isWavelet()) tol += 1e-10 * vmax;
+    if (g.isFourier()) tol += 4.0 * eps * (double) n * vmax; // the surrogate is a sum over all n basis functions (every one of them is non-zero at every node)
     // With a domain / conformal transform the library maps x back to canonical coordinates with rounding (the conformal inverse is a Newton
     // iteration stopped at 1e-12).  The nodes are therefore evaluated at coordinates that are off by a few ulps: (i) boundary nodes are nudged two
     // ulps towards the interior, so that the rounding cannot push them out of the support of compactly supported bases, (ii) the sensitivity of
@@ -94,7 +157,7 @@ double check_reproduction(TasmanianSparseGrid const &g, CaseCtx &c, Rng &rng, st
     for(int i=0; i<n; i++) for(int k=0; k<m; k++){
         double e = std::fabs(y[(size_t) i * (size_t) m + (size_t) k] - v[(size_t) i * (size_t) m + (size_t) k]);
         if (!(e <= tol_at(i, k))){
-            c.viol(prefix + ":evaluateBatch:" + fam, J().str("after", after).i("point", i).i("output", k).num("got", y[(size_t) i * (size_t) m + (size_t) k])
+            c.viol(prefix + ":evaluateBatch:" + famx(), J().str("after", after).i("point", i).i("output", k).num("got", y[(size_t) i * (size_t) m + (size_t) k])
                    .num("supplied", v[(size_t) i * (size_t) m + (size_t) k]).num("tol", tol_at(i, k)).num("lebesgue", lam)
                    .vec("x", std::vector<double>(x.begin() + (long)((size_t) i * (size_t) d), x.begin() + (long)((size_t)(i + 1) * (size_t) d))).obj());
             return 1e300;
@@ -113,8 +176,8 @@ double check_reproduction(TasmanianSparseGrid const &g, CaseCtx &c, Rng &rng, st
         for(int k=0; k<m; k++){
             double e1 = std::fabs(yi[(size_t) k] - v[(size_t) i * (size_t) m + (size_t) k]);
             double e2 = std::fabs(yf[(size_t) k] - v[(size_t) i * (size_t) m + (size_t) k]);
-            if (!(e1 <= tol_at(i, k))){ c.viol(prefix + ":evaluate:" + fam, J().str("after", after).i("point", i).i("output", k).num("got", yi[(size_t) k]).num("supplied", v[(size_t) i * (size_t) m + (size_t) k]).num("tol", tol).obj()); return 1e300; }
-            if (!(e2 <= tol_at(i, k))){ c.viol(prefix + ":evaluateFast:" + fam, J().str("after", after).i("point", i).i("output", k).num("got", yf[(size_t) k]).num("supplied", v[(size_t) i * (size_t) m + (size_t) k]).num("tol", tol).obj()); return 1e300; }
+            if (!(e1 <= tol_at(i, k))){ c.viol(prefix + ":evaluate:" + famx(), J().str("after", after).i("point", i).i("output", k).num("got", yi[(size_t) k]).num("supplied", v[(size_t) i * (size_t) m + (size_t) k]).num("tol", tol).obj()); return 1e300; }
+            if (!(e2 <= tol_at(i, k))){ c.viol(prefix + ":evaluateFast:" + famx(), J().str("after", after).i("point", i).i("output", k).num("got", yf[(size_t) k]).num("supplied", v[(size_t) i * (size_t) m + (size_t) k]).num("tol", tol).obj()); return 1e300; }
             worst = std::max(worst, std::max(e1, e2) / tol_at(i, k));
         }
     }
@@ -125,7 +188,7 @@ double check_reproduction(TasmanianSparseGrid const &g, CaseCtx &c, Rng &rng, st
         g.evaluateBatch(xb, yb);
         for(int s=0; s<nb; s++) for(int k=0; k<m; k++){
             double e = std::fabs(yb[(size_t) s * (size_t) m + (size_t) k] - v[(size_t) which[(size_t) s] * (size_t) m + (size_t) k]);
-            if (!(e <= tol_at(which[(size_t) s], k))){ c.viol(prefix + ":evaluateBatch-sub:" + fam, J().str("after", after).i("point", which[(size_t) s]).i("output", k).num("tol", tol).obj()); return 1e300; }
+            if (!(e <= tol_at(which[(size_t) s], k))){ c.viol(prefix + ":evaluateBatch-sub:" + famx(), J().str("after", after).i("point", which[(size_t) s]).i("output", k).num("tol", tol).obj()); return 1e300; }
         }
     }
     return worst;
@@ -135,14 +198,19 @@ void mon_c01(CaseCtx &c, Rng &rng){
     GenOpts go; go.nonnested = false; go.min_outs = 1; go.max_points = c.thorough ? 1200 : 350; go.max_dims = c.thorough ? 4 : 3;
     // 5% of the cases: larger wavelet grids grown by dynamic construction (irregular point sets, the sparse iterative solver with its
     // un-pivoted ILU preconditioner is the only solver in this build)
-    bool big_wavelet = rng.coin(0.05);
+    // another 6%: wavelet grids built from uniformly random subsets of the candidate lists (any candidate may be returned by the user in any
+    // order): irregular hierarchies on which the un-pivoted ILU hits zero pivots / the iteration has to work hardest
+    bool big_wavelet = rng.coin(0.11);
+    bool scatter_wavelet = big_wavelet && rng.coin(0.55);
     if (big_wavelet){ go.families = (1u << fam_wavelet); go.max_points = 450; go.max_outs = 1; go.conformal = false; }
+    if (scatter_wavelet){ go.max_points = 130; go.min_dims = 2; go.max_dims = 3; if (rng.coin(0.5)){ go.min_dims = 3; go.wavelet_order = 1; } } // zero pivots were seen for 3-d order 1 only
     HState h;
     if (!init_history(h, rng, go, c)){ emit_begin(c, h.cfg.json()); return; }
     emit_begin(c, h.cfg.json());
     HOpts ho; ho.set_coeffs = false; ho.max_points = go.max_points;
     int nsteps = rng.range(2, c.thorough ? 10 : 7);
-    if (big_wavelet){ ho.construction_bias = 8.0; ho.max_points = 900; nsteps = rng.range(6, 10); }
+    if (big_wavelet){ ho.construction_bias = 8.0; ho.max_points = 700; nsteps = rng.range(6, 10); }
+    if (scatter_wavelet){ ho.construction_bias = 60.0; ho.scatter_candidates = 0.85; nsteps = rng.range(7, 12); c.count("wavelet_scatter_construction_cases"); }
     double worst = 0.0;
     int supplying = 0;
     bool only_stable = true, constructed = false;
@@ -156,6 +224,7 @@ void mon_c01(CaseCtx &c, Rng &rng){
         if (s.kind == Step::begin_c) constructed = true;
         if (!check_shadow(h, c, "shadow", s.name())) return;
         if (h.g.getNumPoints() > 4 * go.max_points) break;
+        if (h.g.isWavelet() && h.g.getNumPoints() > 1000) break; // the un-pivoted ILU is O(n^2 nnz_row): minutes per factorization under ASan beyond this
         bool supplies = (s.kind == Step::load || s.kind == Step::reload || s.kind == Step::cand_load || s.kind == Step::finish_c);
         if (!supplies || h.g.getNumLoaded() == 0) continue;
         if (h.g.isLocalPolynomial()){
